@@ -134,18 +134,38 @@ class SX(tuple):
         return 'SX(%s)' % tuple.__repr__(self)
 
 
+class OS(tuple):
+    """marker: at run time this becomes a one-shot iterable of the items (a generator, iter(), map()) - data read from a
+    stream is often handed over that way; for the model it is the sequence of its items"""
+
+    def __repr__(self):
+        return 'OS(%s)' % tuple.__repr__(self)
+
+
 def _real(v):
+    if isinstance(v, OS):
+        k = len(v) % 3
+        return (x for x in list(v)) if k == 0 else (iter(list(v)) if k == 1 else map(lambda x: x, list(v)))
     if isinstance(v, SX):
         import mido
         return mido.Message('sysex', data=list(v), skip_checks=True).data
     return v
 
 
-def values_for(rng, name):
+def values_for(rng, name, one_shot=False):
+    """one_shot: include one-shot iterables (constructor, from_dict, copy: there the items are materialised first; an
+    assignment or += checks the iterable and then stores what is left of it, which is no invalid state and not judged)"""
+    if name == 'data' and not one_shot:
+        v = values_for(rng, name, one_shot=True)
+        while isinstance(v, OS):
+            v = values_for(rng, name, one_shot=True)
+        return v
     if name == 'data':
         return rng.choice([(), (1, 2), [0, 127], [128], [-1], b'\x01\x02', 'ab', 5, None, [1.5], (1, 'a'), [True],
                            [1, 1.0], [7, 2, 7.0], (0, 0.0), [3, 3, 3.0], [1.0, 1], [127, 127.0],
-                           SX((1, 2)), SX((1, 200)), SX((1.5, 2)), SX((3, -1)), SX(())] + WRONG)
+                           SX((1, 2)), SX((1, 200)), SX((1.5, 2)), SX((3, -1)), SX(()),
+                           OS((1, 2)), OS((1, 2, 128)), OS((1.5,)), OS((-1, 3)), OS(()), OS((5, 'a')), OS((0, 127, 64, 3)),
+                           OS((300,)), OS((1, None))] + WRONG)
     if name == 'time':
         return rng.choice([0, 1, -5, 2.5, 10 ** 20, 'x', None, [1], True])
     if name in msgs.RANGES:
@@ -181,6 +201,13 @@ def gen(ck):
                 hs.append([('new', t, [(n, v)]), ('copy', None, [(n, eqv)])])
                 hs.append([('new', t, [(n, v)]), ('set', n, eqv)])
                 hs.append([('new', t, [(n, v)]), ('copy', t, [(n, eqv), ('time', 2)])])
+    # sysex data handed to the constructor / from_dict / copy as a one-shot iterable (what came out of a stream): the items are
+    # checked as those of a list would be
+    for v in (OS((1, 2)), OS((1, 2, 128)), OS((1.5,)), OS((-1, 3)), OS(()), OS((5, 'a')), OS((0, 127, 64, 3)), OS((300,)),
+              OS((1, None)), OS((1.0, 2.0)), OS((127, 128, 0))):
+        hs.append([('new', 'sysex', [('data', v)])])
+        hs.append([('fromdict', 'sysex', [('data', v)])])
+        hs.append([('new', 'sysex', [('data', (7,))]), ('copy', None, [('data', v)])])
     # names that exist on the class (methods, properties) are not message attributes: assigning them is refused as well
     for t in msgs.TYPE_NAMES:
         for n in ('is_meta', 'is_cc', 'is_realtime', 'copy', 'bytes', 'bin', 'hex', 'dict', 'from_dict', 'from_bytes', '__class__',
@@ -208,7 +235,7 @@ def gen(ck):
         kw = []
         for n in names + ['time']:
             if rng.random() < 0.3:
-                kw.append((n, values_for(rng, n) if rng.random() < 0.3 else _good(rng, n)))
+                kw.append((n, values_for(rng, n, one_shot=True) if rng.random() < 0.3 else _good(rng, n)))
         if rng.random() < 0.1:
             kw.append((rng.choice(ALL_NAMES), 1))
         h.append((rng.choice(['new', 'new', 'fromdict']), t, kw))
@@ -219,7 +246,7 @@ def gen(ck):
             if r < 0.4:
                 h.append(('set', n, values_for(rng, n) if rng.random() < 0.5 else _good(rng, n)))
             elif r < 0.7:
-                kw = [(m, values_for(rng, m) if rng.random() < 0.4 else _good(rng, m)) for m in rng.sample(pool, min(len(pool), rng.randint(0, 2)))]
+                kw = [(m, values_for(rng, m, one_shot=True) if rng.random() < 0.4 else _good(rng, m)) for m in rng.sample(pool, min(len(pool), rng.randint(0, 2)))]
                 tov = rng.choice([None, None, None, t, 'note_on'])
                 h.append(('copy', tov, kw))
             elif r < 0.78:
